@@ -291,6 +291,11 @@ func Sym_Rows_Next(rs *sql.Rows) bool {
 		return false
 	}
 	r.pos++
+	if r.set.BreakAfter > 0 && r.pos >= r.set.BreakAfter {
+		r.err = errRowsBroken
+		Sym_Rows_Close(rs)
+		return false
+	}
 	if r.pos >= len(r.set.Rows) {
 		Sym_Rows_Close(rs)
 		return false
